@@ -258,7 +258,7 @@ func sortInts(a []int) {
 // time in different goroutines. Every accepted build must find its own keys;
 // building is a function of its arguments, whatever else is being built.
 // (The schedule is sampled; the race build of C11 runs the same phase under the
-// race detector.)
+// race detector.) The replay file names the round; replaying runs it again.
 func TestC08ConcurrentBuilds(t *testing.T) {
 	st := newStats("C08")
 	defer st.write()
@@ -267,24 +267,15 @@ func TestC08ConcurrentBuilds(t *testing.T) {
 		rounds = 120
 	}
 	for round := 0; round < rounds; round++ {
-		cases := concurrentBuildCases(round)
-		errs := buildConcurrently(cases)
-		for i, err := range errs {
-			if err != nil {
-				if _, ok := err.(*violation); !ok {
-					t.Fatalf("HARNESS ERROR: %v", err)
-				}
-				c := cases[i]
-				c.Prop = "C08"
-				path := writeReplay("C08", c)
-				fmt.Printf("VIOLATION property=C08 replay=%s\n", path)
-				fmt.Printf("DETAIL property=C08 %d builds running at the same time: %s\n", len(cases), oneLine(err.Error()))
-				t.Fatalf("C08 violated: %v", err)
+		if err := concurrentRound(round, st); err != nil {
+			if _, ok := err.(*violation); !ok {
+				t.Fatalf("HARNESS ERROR: %v", err)
 			}
+			path := writeReplay("C08", &Case{Prop: "C08", Gen: "concurrent-round", Block: round})
+			fmt.Printf("VIOLATION property=C08 replay=%s\n", path)
+			fmt.Printf("DETAIL property=C08 8 builds running at the same time: %s\n", oneLine(err.Error()))
+			t.Fatalf("C08 violated: %v", err)
 		}
-		st.doneHash(uint64(round), true)
-		st.calls(len(cases))
 	}
-	st.class("concurrent_independent_builds")
-	st.addSample(map[string]interface{}{"gen": "concurrent-builds", "goroutines": 8, "rounds": rounds, "note": "each goroutine builds its own key set (steps of different lengths, all four option levels) and checks Get on every own key"})
+	st.addSample(map[string]interface{}{"gen": "concurrent-round", "goroutines": 8, "rounds": rounds, "note": "each goroutine builds its own key set (steps of different lengths, four option levels) and checks Get on every own key"})
 }
